@@ -22,15 +22,17 @@ import (
 	"google.golang.org/grpc"
 	"google.golang.org/grpc/connectivity"
 	"google.golang.org/grpc/credentials/insecure"
+	"google.golang.org/grpc/resolver"
 )
 
-// Ev is one script event.  K: req pass dial failgo release cancel.
+// Ev is one script event.  K: req pass dial failgo release cancel closego.
 type Ev struct {
-	K  string `json:"k"`
-	I  int    `json:"i"`            // thread (req pass release cancel) or creator of the dial (dial failgo)
-	A  int    `json:"a,omitempty"`  // req: address
-	ND bool   `json:"nd,omitempty"` // req: name a dialer that does not exist
-	OK bool   `json:"ok,omitempty"` // dial: succeed
+	K    string `json:"k"`
+	I    int    `json:"i"`              // thread (req pass release cancel), creator of the dial (dial failgo), handle (closego)
+	A    int    `json:"a,omitempty"`    // req: address
+	ND   bool   `json:"nd,omitempty"`   // req: name a dialer that does not exist
+	OK   bool   `json:"ok,omitempty"`   // dial: succeed
+	Slow bool   `json:"slow,omitempty"` // dial ok: the handle's Close() parks until closego
 }
 
 // Ret is one Connection call that returned.
@@ -49,6 +51,8 @@ type Obs struct {
 	Dials   [][2]int `json:"dials,omitempty"`
 	Failing []int    `json:"failing,omitempty"`
 	Closed  []int    `json:"closed,omitempty"`
+	InClose []int    `json:"inclose,omitempty"` // handles whose Close() was entered and is parked
+	RelDone []int    `json:"reldone,omitempty"` // threads whose done() returned during this event
 	Bad     int      `json:"bad,omitempty"` // 1 panic, 2 a call that cannot block did not come back
 	Msg     string   `json:"msg,omitempty"`
 }
@@ -63,6 +67,7 @@ type thread struct {
 	goid     uint64
 	cmd      chan int // 1 = call done
 	started  bool
+	atHook   bool // reached connection:joined at least once
 	returned bool
 	done     func()
 	releases int
@@ -74,6 +79,7 @@ type dialrec struct {
 	creator int
 	addr    int
 	inDial  bool
+	slow    bool
 	rel     chan bool
 }
 
@@ -93,6 +99,11 @@ type ctl struct {
 	handles  map[int]*grpc.ClientConn
 	byConn   map[*grpc.ClientConn]int
 	curReq   int
+	pClose   map[int]chan struct{} // handle -> its Close() is parked in the resolver
+	parked   int                   // handle whose Close is parked, -1 if none
+	used     bool                  // a lock-kind event was already played during this park
+	inclose  []int
+	reldone  []int
 	cleanup  bool
 	extra    int
 	// accumulators of the event in progress
@@ -137,6 +148,7 @@ func newCtl() *ctl {
 		canceled: map[int]bool{}, dials: map[int]*dialrec{}, pJoined: map[int]chan struct{}{},
 		pFailed: map[int]chan struct{}{}, byGoid: map[uint64]int{}, dialGoid: map[uint64]int{},
 		handles: map[int]*grpc.ClientConn{}, byConn: map[*grpc.ClientConn]int{}, curReq: -1, extra: 900,
+		pClose: map[int]chan struct{}{}, parked: -1,
 	}
 	c.self = goid()
 	m, err := connection.NewManagerCustom(map[string]connection.Dial{connection.DEFAULT: c.dial})
@@ -176,6 +188,9 @@ func (c *ctl) hook(p string) {
 			return
 		}
 		c.pJoined[t] = ch
+		if th := c.threads[t]; th != nil {
+			th.atHook = true
+		}
 		c.joined = append(c.joined, t)
 	case "dial:failed":
 		d, ok := c.dialGoid[g]
@@ -231,7 +246,18 @@ func (c *ctl) dial(ctx context.Context, target string, _ ...grpc.DialOption) (*g
 		if !ok {
 			return nil, errScripted
 		}
-		cc, err := grpc.NewClient("passthrough:///x", grpc.WithTransportCredentials(insecure.NewCredentials()))
+		var cc *grpc.ClientConn
+		var err error
+		if d.slow {
+			// a resolver of our own: ClientConn.Close waits for its Close, which parks
+			cc, err = grpc.NewClient(fmt.Sprintf("c16slow:///%d", creator),
+				grpc.WithTransportCredentials(insecure.NewCredentials()), grpc.WithResolvers(slowBuilder{}))
+			if err == nil {
+				cc.Connect() // leave idle mode so that the resolver is built
+			}
+		} else {
+			cc, err = grpc.NewClient("passthrough:///x", grpc.WithTransportCredentials(insecure.NewCredentials()))
+		}
 		if err != nil {
 			panic(err)
 		}
@@ -308,6 +334,9 @@ func (c *ctl) worker(t *thread, ctx context.Context, dialer string) {
 			}()
 			if t.done != nil {
 				t.done()
+				c.mu.Lock()
+				c.reldone = append(c.reldone, t.id)
+				c.mu.Unlock()
 			}
 		}()
 	}
@@ -392,7 +421,7 @@ func (c *ctl) quiet() (bool, int) {
 func (c *ctl) counters() int {
 	c.mu.Lock()
 	defer c.mu.Unlock()
-	return len(c.rets) + len(c.joined) + len(c.ndials) + len(c.failing)
+	return len(c.rets) + len(c.joined) + len(c.ndials) + len(c.failing) + len(c.inclose) + len(c.reldone)
 }
 
 // settle waits until two consecutive snapshots find every goroutine of the
@@ -445,11 +474,34 @@ func (c *ctl) enabled(e Ev) bool {
 		return ok
 	case "release":
 		t, ok := c.threads[e.I]
-		return ok && t.returned
+		return ok && t.returned && !t.busy
 	case "cancel":
+		if t, ok := c.threads[e.I]; ok && c.parked >= 0 && !t.returned && !t.atHook {
+			return false // its request is blocked on the mutex, past the ctx check
+		}
 		return true
+	case "closego":
+		_, ok := c.pClose[e.I]
+		return ok
 	}
 	return false
+}
+
+func lockKind(k string) bool { return k == "req" || k == "failgo" || k == "release" }
+
+// admitted applies the rule for a parked Close: at most one event that may
+// need m.mu is played, the others are ignored.
+func (c *ctl) admitted(e Ev) bool {
+	c.mu.Lock()
+	defer c.mu.Unlock()
+	if c.parked < 0 || !lockKind(e.K) {
+		return true
+	}
+	if c.used {
+		return false
+	}
+	c.used = true
+	return true
 }
 
 func (c *ctl) closedHandles() []int {
@@ -467,11 +519,11 @@ func (c *ctl) closedHandles() []int {
 
 // do plays one event and returns what became observable.
 func (c *ctl) do(e Ev) Obs {
-	if !c.enabled(e) {
+	if !c.admitted(e) || !c.enabled(e) {
 		return Obs{Ign: true, Closed: c.closedHandles()}
 	}
 	c.mu.Lock()
-	c.rets, c.joined, c.ndials, c.failing = nil, nil, nil, nil
+	c.rets, c.joined, c.ndials, c.failing, c.inclose, c.reldone = nil, nil, nil, nil, nil, nil
 	c.mu.Unlock()
 	var t *thread
 	switch e.K {
@@ -496,6 +548,7 @@ func (c *ctl) do(e Ev) Obs {
 	case "dial":
 		c.mu.Lock()
 		d := c.dials[e.I]
+		d.slow = e.OK && e.Slow
 		c.mu.Unlock()
 		d.rel <- e.OK
 	case "failgo":
@@ -518,29 +571,37 @@ func (c *ctl) do(e Ev) Obs {
 		c.canceled[e.I] = true
 		c.mu.Unlock()
 		cancel()
+	case "closego":
+		c.mu.Lock()
+		ch := c.pClose[e.I]
+		delete(c.pClose, e.I)
+		c.parked, c.used = -1, false
+		c.mu.Unlock()
+		close(ch)
 	}
 	busyForever := !c.settle(5 * time.Second)
 	c.mu.Lock()
-	o := Obs{Rets: c.rets, Joined: c.joined, Dials: c.ndials, Failing: c.failing, Bad: c.bad, Msg: c.msg}
-	if o.Bad == 0 {
-		switch {
-		case busyForever:
-			o.Bad, o.Msg = 2, "goroutines still running after 5s"
-		case e.K == "req":
-			if _, parked := c.pJoined[e.I]; !parked && !t.returned {
-				o.Bad, o.Msg = 2, "Connection neither reached the join point nor returned"
-			}
-		case e.K == "release":
-			if t.busy {
-				o.Bad, o.Msg = 2, "done() did not return"
-			}
+	o := Obs{Rets: c.rets, Joined: c.joined, Dials: c.ndials, Failing: c.failing, InClose: c.inclose,
+		RelDone: c.reldone, Bad: c.bad, Msg: c.msg}
+	if o.Bad == 0 && busyForever {
+		o.Bad, o.Msg = 2, "goroutines still running after 5s"
+	}
+	// a call that blocks (on m.mu behind a parked Close, or for ever) shows as
+	// a missing arrival / return / done(), which the model and K_P predict
+	_ = t
+	if c.curReq >= 0 {
+		// a request still blocked on the mutex keeps the attribution of a
+		// dialer that arrives at dial:failed without having entered Dial
+		if tr := c.threads[c.curReq]; tr == nil || tr.atHook || tr.returned {
+			c.curReq = -1
 		}
 	}
-	c.curReq = -1
 	c.mu.Unlock()
 	sort.Slice(o.Rets, func(i, j int) bool { return o.Rets[i].I < o.Rets[j].I })
 	sort.Ints(o.Joined)
 	sort.Ints(o.Failing)
+	sort.Ints(o.InClose)
+	sort.Ints(o.RelDone)
 	sort.Slice(o.Dials, func(i, j int) bool { return o.Dials[i][0] < o.Dials[j][0] })
 	o.Closed = c.closedHandles()
 	return o
@@ -566,6 +627,10 @@ func (c *ctl) finish() (wedged bool) {
 		for k, ch := range c.pFailed {
 			close(ch)
 			delete(c.pFailed, k)
+		}
+		for k, ch := range c.pClose {
+			close(ch)
+			delete(c.pClose, k)
 		}
 		for _, d := range c.dials {
 			if d.inDial {
@@ -596,14 +661,59 @@ func (c *ctl) finish() (wedged bool) {
 		}
 	}
 	c.mu.Lock()
+	var open []*grpc.ClientConn
 	for _, cc := range c.handles {
-		cc.Close()
+		open = append(open, cc)
 	}
 	c.mu.Unlock()
+	for _, cc := range open {
+		cc.Close() // outside c.mu: a slow handle's resolver Close takes it
+	}
 	current.mu.Lock()
 	current.c = nil
 	current.mu.Unlock()
 	quiet := c.settle(100 * time.Millisecond)
 	_, n := c.quiet()
 	return left > 0 || !quiet || n > 0
+}
+
+// ---------------------------------------------------------------------------
+// handles whose Close can be held open
+
+type slowBuilder struct{}
+
+func (slowBuilder) Scheme() string { return "c16slow" }
+
+func (slowBuilder) Build(t resolver.Target, _ resolver.ClientConn, _ resolver.BuildOptions) (resolver.Resolver, error) {
+	h, err := strconv.Atoi(strings.TrimPrefix(t.URL.Path, "/"))
+	if err != nil {
+		h = 998
+	}
+	return &slowResolver{h: h}, nil
+}
+
+type slowResolver struct{ h int }
+
+func (*slowResolver) ResolveNow(resolver.ResolveNowOptions) {}
+
+// Close is called by (*grpc.ClientConn).Close, which waits for it.
+func (r *slowResolver) Close() {
+	current.mu.Lock()
+	c := current.c
+	current.mu.Unlock()
+	if c == nil {
+		return
+	}
+	c.mu.Lock()
+	if c.cleanup {
+		c.mu.Unlock()
+		return
+	}
+	ch := make(chan struct{})
+	c.pClose[r.h] = ch
+	c.parked = r.h
+	c.used = false
+	c.inclose = append(c.inclose, r.h)
+	c.mu.Unlock()
+	<-ch
 }
